@@ -1,5 +1,5 @@
 (* Spec/C01.v -- no frame, history or configuration can crash the responder. *)
-From MS Require Export Bytes Types Proto L2 Spec.View Spec.History Spec.EnvOk Spec.C11http.
+From MS Require Export Bytes Types Proto Spec.Pending L2 Spec.View Spec.History Spec.EnvOk Spec.C11http.
 
 (* frames as the capture loop hands them over: octets, at most the capture buffer *)
 Definition frame_ok (f : bytes) : Prop := bytes_ok f = true /\ (length f <= 4096)%nat.
@@ -10,13 +10,17 @@ Definition clock_ok (clk : clock) : Prop :=
 
 (* invariant of the connection table that keeps the two bare panic!() of the HTTP
    and RPC handlers (a control block carrying the other protocol's parser state)
-   and the verb-matcher underflow unreachable *)
-Definition tcb_ok (E : env) (tc : tcb) : Prop :=
+   and the verb-matcher underflow unreachable ... *)
+Definition tcb_state_ok (E : env) (tc : tcb) : Prop :=
   match t_pstate tc with
   | None => True
   | Some (PHttp h) => t_proto tc = PROTO_HTTP /\ http_st_ok (e_http_tbl E) h
   | Some (PRpc _) => t_proto tc = PROTO_RPC_TCP
   end.
+
+(* ... and the bytes kept while the protocol is unknown are octets, at most PENDING_MAX of
+   them (they are handed to the handlers, which index into what they are given) *)
+Definition tcb_ok (E : env) (tc : tcb) : Prop := tcb_state_ok E tc /\ pending_ok tc.
 
 Definition table_ok (E : env) (tb : table) : Prop := forall k tc, tbl_find k tb = Some tc -> tcb_ok E tc.
 
